@@ -300,6 +300,68 @@ func R20(p *core.Prog) *core.Result {
 			r.Fail(".EXPORTED-AGREE", "gotype."+fn+"|exported", p.Pos(f.Pos()), "gotype."+fn+" no longer decides 'exported' by unicode.IsUpper of the first rune of the field name, as the other side does: fields whose name starts with a non-ASCII upper-case letter are folded by one side and treated as unknown by the other", "")
 		}
 	}
+	// REENTRANT-INLINE: compiled folders are cached per type, so a folder can be re-entered while it is running
+	// (a value inlines a value of the same type again). A folder closure that activates a captured, single
+	// ExpectObjVisitor (SetActive) does so only behind a test of a captured busy flag.
+	{
+		n := 0
+		for _, f := range p.ModFuncs() {
+			pk := core.FuncPkg(f)
+			if pk == nil || pk.Name() != "gotype" || len(f.FreeVars) == 0 {
+				continue
+			}
+			var act *ssa.Call
+			for _, b := range f.Blocks {
+				for _, in := range b.Instrs {
+					c, ok := in.(*ssa.Call)
+					if !ok || c.Common().StaticCallee() == nil || c.Common().StaticCallee().Name() != "SetActive" || len(c.Common().Args) < 2 || isNilConst(c.Common().Args[1]) {
+						continue
+					}
+					// receiver is captured state
+					recv := c.Common().Args[0]
+					if ld, ok := recv.(*ssa.UnOp); ok {
+						recv = ld.X
+					}
+					if _, ok := recv.(*ssa.FreeVar); ok && act == nil {
+						act = c
+					}
+				}
+			}
+			if act == nil {
+				continue
+			}
+			n++
+			guarded := false
+			for _, b := range f.Blocks {
+				ifi, ok := b.Instrs[len(b.Instrs)-1].(*ssa.If)
+				if !ok {
+					continue
+				}
+				ld, ok := ifi.Cond.(*ssa.UnOp)
+				if !ok {
+					continue
+				}
+				fv, ok := ld.X.(*ssa.FreeVar)
+				if !ok {
+					continue
+				}
+				if bt, ok := fv.Type().Underlying().(*types.Pointer).Elem().Underlying().(*types.Basic); !ok || bt.Kind() != types.Bool {
+					continue
+				}
+				// the activation is only reachable through the false edge
+				if !blockReaches(b.Succs[0], act.Block()) && blockReaches(b.Succs[1], act.Block()) {
+					guarded = true
+				}
+			}
+			fkey := core.FuncKey(f)
+			if guarded {
+				r.Ok(".REENTRANT-INLINE", p.Pos(act.Pos()), fkey+": the captured ExpectObjVisitor is activated only when the folder is not already running")
+			} else {
+				r.Fail(".REENTRANT-INLINE", fkey+"|reentry", p.Pos(act.Pos()), fkey+" activates its single captured ExpectObjVisitor without a re-entrancy guard: folders are cached per type, so a value that inlines a value of the same type again (inline interface{} inside an inlined interface{}) re-enters the folder, makes the visitor its own target and recurses until the stack overflows", "")
+			}
+		}
+		r.Floor("inline_folders_with_captured_visitor", n, 1)
+	}
 	omitFirst(p, r)
 	resolverIdentity(p, r)
 	nilFolder(p, r)
